@@ -202,6 +202,7 @@ func checkNested(buf []byte, start, o int, m *sipsp.PSIPMsg) string {
 }
 
 func (g *Gen) genC05() {
+	g.exhOneShot("C05", "msg")
 	r := g.r
 	n := g.budget(2500, 80000)
 	for i := 0; i < n; i++ {
@@ -882,6 +883,7 @@ func allDigits(s string) bool {
 var two32 = new(big.Int).Lsh(big.NewInt(1), 32)
 
 func (g *Gen) genC10() {
+	g.exhOneShot("C10", "num")
 	r := g.r
 	n := g.budget(1200, 60000)
 	digitsList := func() []string {
